@@ -514,14 +514,20 @@ func overlayStart(c *Ctx) *overlayWork {
 			w.sse2only = runWorker(self, seed, tier, streams, "C13_AVX2=off")
 		}()
 		defer func() { <-sd }()
-		ovDir := "/tmp/arch-overlay"
+		ovDir, _ := os.MkdirTemp("", "arch-overlay-")
 		defer os.RemoveAll(ovDir)
 		ov, stats, err := makeOverlay(repoDir(), ovDir)
 		w.stats, w.err = stats, err
 		if err != nil {
 			return
 		}
-		cmd := exec.Command("go", "build", "-tags", "verif", "-overlay", ov, "-o", portable, "./c13")
+		args := []string{"build", "-tags", "verif", "-overlay", ov}
+		if repoDir() != "/repo" {
+			// a run against another tree (bin/mutrun): bin/check wrote a go.mod whose replace points there
+			args = append(args, "-modfile", filepath.Join(verif, "build", "go.alt.mod"))
+		}
+		args = append(args, "-o", portable, "./c13")
+		cmd := exec.Command("go", args...)
 		cmd.Dir = filepath.Join(verif, "harness")
 		if outb, err := cmd.CombinedOutput(); err != nil {
 			w.buildOut = string(outb) + " " + err.Error()
